@@ -1,7 +1,8 @@
 import Grexv.Props.C09
+import Grexv.Lemmas.EndToEnd
 
 /-!
-# C03 — shorthand-class options generalise exactly as documented (conversion level)
+# C03 — shorthand-class options generalise exactly as documented (conversion level and end to end)
 
 `convChar` is the generated if-chain; C09 proves it equal to the documented conversion stated with
 the regex crate's tables.  Here: the documented precedence and the "unconverted characters stay
@@ -64,5 +65,99 @@ theorem conv_shape (cfg : Config) (c : Nat) :
   rw [conv_eq_spec]; unfold specToken
   repeat' split
   all_goals simp
+
+/-! ## end to end -/
+
+/-- what a code point is documented to become: the regex crate's class tables, the documented precedence -/
+def docAtom (cfg : Config) (c : Nat) : Atom :=
+  if cfg.digit && Spec.perlMember .digit c then .cls .digit false
+  else if cfg.word && Spec.perlMember .word c then .cls .word false
+  else if cfg.space && Spec.perlMember .space c then .cls .space false
+  else if cfg.nonDigit && !Spec.perlMember .digit c then .cls .digit true
+  else if cfg.nonWord && !Spec.perlMember .word c then .cls .word true
+  else if cfg.nonSpace && !Spec.perlMember .space c then .cls .space true
+  else .chr c
+
+/-- the conversion the code performs (generated if-chain, grex's own tables) is the documented one -/
+theorem convAtom_documented (cfg : Config) (c : Nat) : convAtom cfg c = docAtom cfg c := by
+  have hc := conv_eq_spec cfg c
+  unfold specToken at hc
+  unfold docAtom
+  by_cases h1 : (cfg.digit && Spec.perlMember .digit c) = true
+  · rw [if_pos h1] at hc ⊢; exact convAtom_of_token cfg c .digit false hc
+  · rw [if_neg h1] at hc ⊢
+    by_cases h2 : (cfg.word && Spec.perlMember .word c) = true
+    · rw [if_pos h2] at hc ⊢; exact convAtom_of_token cfg c .word false hc
+    · rw [if_neg h2] at hc ⊢
+      by_cases h3 : (cfg.space && Spec.perlMember .space c) = true
+      · rw [if_pos h3] at hc ⊢; exact convAtom_of_token cfg c .space false hc
+      · rw [if_neg h3] at hc ⊢
+        by_cases h4 : (cfg.nonDigit && !Spec.perlMember .digit c) = true
+        · rw [if_pos h4] at hc ⊢; exact convAtom_of_token cfg c .digit true hc
+        · rw [if_neg h4] at hc ⊢
+          by_cases h5 : (cfg.nonWord && !Spec.perlMember .word c) = true
+          · rw [if_pos h5] at hc ⊢; exact convAtom_of_token cfg c .word true hc
+          · rw [if_neg h5] at hc ⊢
+            by_cases h6 : (cfg.nonSpace && !Spec.perlMember .space c) = true
+            · rw [if_pos h6] at hc ⊢; exact convAtom_of_token cfg c .space true hc
+            · rw [if_neg h6] at hc ⊢; exact convAtom_of_id cfg c hc
+
+/-- a string obtained from `t` by replacing every code point independently by a member of what it is documented to
+be converted to (the code point itself when no option applies) -/
+def Generalises (cfg : Config) (t s : Str) : Prop := atomsDen (t.map (docAtom cfg)) s
+
+/-- every string generalises itself: a converted code point is a member of its class (C09) -/
+theorem generalises_self (cfg : Config) (t : Str) : Generalises cfg t t := by
+  unfold Generalises
+  induction t with
+  | nil => rfl
+  | cons c r ih =>
+    refine ⟨c, r, rfl, ?_, ih⟩
+    unfold docAtom
+    repeat' split
+    all_goals simp_all [atomDen]
+
+/-- `Generalises` keeps the length and leaves unconverted code points alone -/
+theorem generalises_length (cfg : Config) (t s : Str) (h : Generalises cfg t s) : s.length = t.length := by
+  unfold Generalises at h
+  induction t generalizing s with
+  | nil => simp [atomsDen] at h; simp [h]
+  | cons c r ih =>
+    obtain ⟨x, r', rfl, _, hr⟩ := h
+    simp [ih r' hr]
+
+/-- **C03 for the model, all inputs** for every subset of the six class options (with or without capturing groups,
+everything else at its default), every list of test cases containing a non-empty one, every segmentation meeting its
+contract and every string `s` of scalar values: the returned text is accepted by the model of `Regex::new`, and the
+compiled pattern matches `s` in full iff `s` generalises one of the non-empty test cases in the documented way — no
+more, no less (the empty test case is known finding D1) -/
+theorem classes_exact (cfg : Config) (hp : PlainPrint cfg) (env : Env) (ws : List Str) (st : Stages)
+    (h : regExpFrom cfg env ws = .ok st) (hseg : ∀ w ∈ ws, SegOK env w) (hne : ∃ t ∈ ws, t ≠ [])
+    (s : Str) (hs : ∀ c ∈ s, Scalar c) :
+    ∃ P, Spec.parse (fmtRegExp cfg st.finalAst) = some (⟨false, false⟩, P) ∧
+      (Spec.fullMatch false P s = true ↔ ∃ t ∈ ws, t ≠ [] ∧ Generalises cfg t s) := by
+  obtain ⟨P, hP, hm⟩ := Grexv.classes_exact cfg hp env ws st h hseg hne s hs
+  refine ⟨P, hP, ?_⟩
+  rw [hm]
+  have : ∀ t : Str, t.map (convAtom cfg) = t.map (docAtom cfg) :=
+    fun t => List.map_congr_left (fun c _ => convAtom_documented cfg c)
+  simp only [Generalises, this]
+
+/-- in particular every non-empty test case is still accepted, whatever the class options -/
+theorem classes_sound (cfg : Config) (hp : PlainPrint cfg) (env : Env) (ws : List Str) (st : Stages)
+    (h : regExpFrom cfg env ws = .ok st) (hseg : ∀ w ∈ ws, SegOK env w) (t : Str) (ht : t ∈ ws) (hne : t ≠ []) :
+    ∃ P, Spec.parse (fmtRegExp cfg st.finalAst) = some (⟨false, false⟩, P) ∧ Spec.fullMatch false P t = true := by
+  have hsc : ∀ c ∈ t, Scalar c := by
+    obtain ⟨h1, h2⟩ := hseg t ht
+    intro c hc
+    rw [← h2] at hc
+    obtain ⟨p, hp', hcp⟩ := List.mem_flatten.mp hc
+    exact (h1 p hp').2 c hcp
+  obtain ⟨P, hP, hm⟩ := classes_exact cfg hp env ws st h hseg ⟨t, ht, hne⟩ t hsc
+  exact ⟨P, hP, hm.mpr ⟨t, ht, hne, generalises_self cfg t⟩⟩
+
+/-- non-vacuity: `-d` on `["a1"]` gives `a\d` -/
+example : (["a1".toList.map Char.toNat] : List Str).map (fun t => t.map (docAtom { digit := true })) =
+    [[Atom.chr 97, Atom.cls .digit false]] := by decide +kernel
 
 end Grexv.Props.C03
